@@ -323,6 +323,7 @@ def dCommentEol (t : Tok) (l : Loc) (top : Level) (rest : List Level) (c : UInt8
 def dCommentEnd (t : Tok) (l : Loc) (top : Level) (rest : List Level) (c : UInt8) : Act :=
   let t := { t with pb := t.pb ++ [c] }
   if c == 47 then .consume (setTop t { top with state := .eatws } rest) l
+  else if c == 42 then .consume t l          -- another '*': still waiting for the '/'
   else .consume (setTop t { top with state := .comment } rest) l
 
 def dString (t : Tok) (l : Loc) (top : Level) (rest : List Level) (c : UInt8) : Act :=
